@@ -29,20 +29,22 @@ func HC14Masks() {
 	n := ns[vr.Concretize(vr.NondetInt(0, 7))]
 	k := ks[vr.Concretize(vr.NondetInt(0, 3))]
 	media := make([]rtp.Packet, n)
-	cov := NewCoverage(media, uint32(k))
-	vr.Assert(cov != nil, "configuration accepted")
-	// a second update with a different configuration must not leave stale bits
+	var cov *ProtectionCoverage
 	if vr.NondetBool() {
-		cov.UpdateCoverage(make([]rtp.Packet, 5), 2)
+		// the same coverage object served a different, larger configuration before: no stale bits may remain
+		cov = NewCoverage(make([]rtp.Packet, 110), 2)
 		cov.UpdateCoverage(media, uint32(k))
 		vr.Cover("coverage reused")
+	} else {
+		cov = NewCoverage(media, uint32(k))
 	}
+	vr.Assert(cov != nil, "configuration accepted")
 	f := vr.NondetInt(0, k-1)
-	m := vr.NondetInt(0, n-1)
+	m := vr.NondetInt(0, 109) // also indices beyond the media count: they must not be named
 	named := c14named(cov.ExtractMask1(uint32(f)), cov.ExtractMask2(uint32(f)), cov.ExtractMask3_03(uint32(f)), m)
 	combined := cov.packetMasks[f].GetBit(uint32(m)) == 1
 	vr.Cover("configured")
-	vr.Assert(combined == (m%k == f), "media m is combined into repair packet m mod k")
+	vr.Assert(combined == (m < n && m%k == f), "media m is combined into repair packet m mod k (and nothing beyond the media count)")
 	vr.KnownFinding("C14-index-109", m == 109)
 	vr.Assert(named == combined, "the mask names exactly the packets that were combined")
 	// stale bits beyond the media count would name packets that do not exist
